@@ -99,8 +99,9 @@ class SimFile(object):
         self.sim = sim
         self.path = path
         self.rel = sim.rel(path)
+        self._mode = mode
         self._f = _REAL_OPEN(path, mode, buffering=0)
-        self.pos = 0
+        self.pos = self._f.seek(0, 2) if 'a' in mode else 0      # byte offset in the file (append starts at its end)
         self.closed = False
         self.fault = sim.take_fault('byte', self.rel)
 
@@ -130,6 +131,29 @@ class SimFile(object):
 
     def tell(self):
         return self.pos
+
+    def truncate(self, size=None):
+        size = self.pos if size is None else size
+        self.sim.next_event('truncate', self.rel, size)
+        self._f.truncate(size)
+        if 'a' not in self._mode:
+            self._f.seek(min(self.pos, size))
+        self.pos = min(self.pos, size) if 'a' not in self._mode else size
+        return size
+
+    def seek(self, offset, whence=0):
+        r = self._f.seek(offset, whence)
+        self.pos = r
+        return r
+
+    def fileno(self):
+        return self._f.fileno()
+
+    def writable(self):
+        return True
+
+    def readable(self):
+        return False
 
     def flush(self):
         pass
